@@ -262,6 +262,15 @@ class Exec:
             raise Unsupported("z3 returned unknown on a path condition")
         return r == z3.sat
 
+    def index_window(self, st, iv, n):
+        """Smallest power-of-two window [0, k) that the path condition confines a symbolic index to (k <= 64)."""
+        k = 1
+        while k <= 64:
+            if k >= n or self.entails(st.pc, z3.ULT(iv, z3.BitVecVal(k, iv.size()))):
+                return min(k, n)
+            k *= 2
+        raise Unsupported("symbolic index not confined to a small window by the path condition")
+
     def entails(self, pc, f):
         return not self.feasible(pc, z3.Not(f))
 
@@ -384,7 +393,14 @@ class Exec:
                     if k < len(v.items):
                         return v.items[k]
                     raise Unsupported("index %d out of range on this path" % k)
-            raise Unsupported("index projection on %r" % (v,))
+                if iv is not None and not pr[2:]:
+                    # symbolic index into a scalar buffer: an if-then-else chain over the window the path condition confines it to
+                    k = self.index_window(st, iv, len(v.items))
+                    out = v.items[k - 1]
+                    for j in range(k - 2, -1, -1):
+                        out = z3.If(iv == j, v.items[j], out)
+                    return out
+            raise Unsupported("index projection on %s" % (repr(v)[:120],))
         raise Unsupported("projection %r" % (pr,))
 
     def materialise_in(self, st, v, where, pr):
@@ -460,7 +476,13 @@ class Exec:
         if pr[0] == "index" and isinstance(v, PyVec):
             iv = z3.simplify(self.operand(st, "copy " + pr[1])[0])
             if not z3.is_bv_value(iv):
-                raise Unsupported("write at a symbolic index")
+                if projs[1:] or not z3.is_bv(val):
+                    raise Unsupported("write of a non-scalar at a symbolic index")
+                k = self.index_window(st, iv, len(v.items))
+                items = list(v.items)
+                for j in range(k):
+                    items[j] = z3.If(iv == j, val, items[j])
+                return PyVec(items)
             k = iv.as_long()
             if k >= len(v.items):
                 raise Unsupported("index %d out of range on this path" % k)
@@ -546,11 +568,18 @@ class Exec:
                         return bv(val, INT_W[ty]), ty
                     if ty == "f64":
                         return z3.FPVal(val, z3.Float64()), "f64"
+                    if ty == "struct" and val[0] == "newtype":
+                        return Struct(val[1], {0: bv(val[2], INT_W[val[3]])}), None
                 except Exception:  # noqa: BLE001
                     continue
             raw = self.mf.const_bytes(re.escape(segs[-1]))
             if raw is not None:
                 return PyVec([bv(x, 8) for x in raw]), None
+            cf = self.mf.const_fn(segs[-1])
+            if cf is not None and st is not None:
+                res = subcall(self, State(), cf, [])
+                if isinstance(res, list) and len(res) == 1:
+                    return res[0][0], None
         return Opaque("const " + c[:80]), None
 
     # ---- rvalues
@@ -1392,7 +1421,7 @@ GENERIC_MODELS = [
     (r"<\w+ as TryFrom<\w+>>::try_from$", m_int_try_from),
     (r" as Try>::branch$", m_branch),
     (r"FromResidual<.*>>::from_residual$", m_from_residual),
-    (r"as Deref>::deref$|as DerefMut>::deref_mut$|as AsRef<.*>>::as_ref$|as Borrow<.*>>::borrow$", m_identity),
+    (r"as Deref>::deref$|as DerefMut>::deref_mut$|as AsRef<.*>>::as_ref$|as Borrow<.*>>::borrow$|^Vec::<.*>::as_slice$|^Vec::<.*>::as_mut_slice$", m_identity),
     (r"Vec::<.*>::new$", m_vec_new),
     (r"Vec::<.*>::push$", m_vec_push),
     (r"Vec::<.*>::clear$", m_vec_clear),
